@@ -298,6 +298,7 @@ def run(ctx: Context) -> None:
         lp = first(mm, "for $f, $pairs in self._face_and_node_pair_iter():\n    for $col, $pair in enumerate($pairs):\n        $ei = $map[frozenset($pair)]\n        $fe[$f, $col] = $ei",
                    "for $f, $pairs in self._face_and_node_pair_iter():\n    for $col, $pair in enumerate($pairs):\n        $fe[$f, $col] = $map[frozenset($pair)]") if ok else None
         ctx.check('R10.4', ok and lp is not None, "face-edge: column k of a face is the edge (looked up by unordered pair in the edge-node table in use) of its k-th node pair", mf, lp or mf.node)
+        derivation_loops = {'make_face_edge_array': lp}
         ctx.check('R10.4', shp == '(self.face_count, self.max_node_count)', "face-edge has one row per face and max_node_count columns", mf,
                   mf.node, construct=f"face_edge table shape {shp}")
         mef = ctx.func(f"{TOPO}.make_edge_face_array")
@@ -310,6 +311,7 @@ def run(ctx: Context) -> None:
         ok = lp is not None and shp == '(self.edge_count, 2)' and mm.stmt('$cnt = numpy.zeros(self.edge_count, dtype=self.sensible_dtype)') is not None
         ctx.check('R10.4', ok, "edge-face: every face is recorded on each of its edges, in the next free of two slots", mef, lp or mef.node,
                   construct=f"edge_face shape {shp}; loop {'recognised' if lp is not None else 'not recognised'}")
+        derivation_loops['make_edge_face_array'] = lp
         mff = ctx.func(f"{TOPO}.make_face_face_array")
         mm = Matcher(ctx, mff)
         shp, tbl = table_shape(mff)
@@ -323,6 +325,7 @@ def run(ctx: Context) -> None:
         lp = first(mm, *[f"{h}\n{sk}\n{b_}" for h in heads for sk in skips for b_ in bodies])
         ok = lp is not None and mm.stmt('$cnt = numpy.zeros(self.face_count, dtype=self.sensible_dtype)') is not None
         ctx.check('R10.4', ok, "face-face: each interior edge links its two faces in both directions (symmetric adjacency); boundary edges are skipped", mff, lp or mff.node)
+        derivation_loops['make_face_face_array'] = lp
         for name in ('make_edge_face_array', 'make_face_face_array', 'make_face_edge_array'):
             fi = ctx.func(f"{TOPO}.{name}")
             shp, tbl = table_shape(fi)
@@ -330,6 +333,14 @@ def run(ctx: Context) -> None:
             made = [c for c in calls_in(fi) if callee(ctx, fi, c) == 'numpy.ma.masked_array']
             ok = tbl is not None and shp is not None and len(made) == 1 and bool(fi.returns()) and all(fl_.resolve(r.value) is made[0] for r in fi.returns())
             ctx.check('R10.4', ok, "derived tables start fully masked, so unused slots stay missing", fi, fi.node, construct=f"{name}: masked_array(filled, mask=True)")
+            # one derivation: nothing but the loop judged above writes into the table (no second, cheaper way for some datasets),
+            # and no exit comes before that loop has run
+            lp_ = derivation_loops.get(name)
+            stores = [n for n in ast.walk(fi.node) if isinstance(n, ast.Subscript) and isinstance(n.ctx, ast.Store) and isinstance(n.value, ast.Name) and n.value.id == tbl]
+            outside = [n for n in stores if lp_ is None or not any(x is n for x in ast.walk(lp_))]
+            early = [r for r in fi.returns() if lp_ is not None and r.lineno < lp_.lineno]
+            ctx.check('R10.4', lp_ is not None and not outside and not early, "the table is filled by that one derivation and returned after it", fi, (outside or early or [fi.node])[0],
+                      construct=f"{name}: stores outside the derivation loop: {len(outside)}, exits before it: {len(early)}")
 
     # ------------------------------------------------------------------ R10.5
     with ctx.section('R10.5'):
